@@ -7,6 +7,9 @@ package main
 //	C13 map  <curve> <g1|g2> <tower> <p> <a> <b> <r> <u> <P>     MapToG<i>(u): P was computed at generation time; the executor
 //	                                                            recomputes it (determinism), asks the library predicates and
 //	                                                            checks the RFC sign convention on MapToCurve<i>(u)
+//	C13 mapc <curve> <grp> <tower> <p> <a'> <b'> <svdw|sswu> <Z> <u> <Q>   MapToCurve<i>(u) = Q (before isogeny / cofactor clearing):
+//	                                                            determinism, Q on y² = x³+a'x+b', sgn0(y) = sgn0(u), and for SSWU
+//	                                                            x(Q) ∈ {x1(u), Z·u²·x1(u)}; u from the limb-boundary lattice
 //	C13 enc|hash <curve> <grp> <tower> <p> <a> <b> <r> <msg> <dst> <P>   EncodeToG<i> / HashToG<i>, plus fp.Hash(msg,dst,m|2m)
 //	C13 distinct <curve> <grp> <u1> <u2>                        X(MapToCurve(u1)) ≠ X(MapToCurve(u2)) (statistical test)
 //	C13 svdw <curve> <u>                                        MapToCurve1(u) of the F_p SvdW curves, exact point
@@ -131,6 +134,10 @@ type c13Group struct {
 	enc, hash          func(msg, dst []byte) (pt string, on, sub bool, err error)
 	fpHash             func(msg, dst []byte, n int) ([]*big.Int, error)
 	special            func() [][]*big.Int
+	// (c13_lattice.go) curve MapToCurve lands on + kind + Z; MapToCurve(u) with the harness-side checks; preimages of tv2
+	cparams string
+	mapC    func(u []*big.Int) (pt string, on, sgn, xin bool)
+	tv2pre  func(c []*big.Int) [][]*big.Int
 }
 
 var c13Groups = map[string]*c13Group{}
@@ -312,6 +319,7 @@ func c13Reg[E any, PE c13Fld[E], A any, PA c13Pt[A]](curve, grp string, p, r *bi
 		}
 		return res
 	}
+	c13RegLattice[E, PE, A, PA](g, tower, kind, aE, bE, mk(zc...), mapToCurve, zf, iso)
 	key := curve + " " + grp
 	c13Groups[key] = g
 	c13GroupOrder = append(c13GroupOrder, key)
@@ -402,6 +410,17 @@ func c13Exec(a []string) string {
 		pt, on, sub, sgn := g.mapTo(c13parseList(a[8]))
 		pt2, _, _, _ := g.mapTo(c13parseList(a[8]))
 		return c13flags(pt == a[9] && pt2 == pt, on, sub, sgn)
+	case "mapc":
+		if len(a) != 11 {
+			return "bad-op"
+		}
+		g, ok := c13Groups[a[1]+" "+a[2]]
+		if !ok {
+			return "bad-op"
+		}
+		pt, on, sgn, xin := g.mapC(c13parseList(a[9]))
+		pt2, _, _, _ := g.mapC(c13parseList(a[9]))
+		return c13flags(pt == a[10] && pt2 == pt, on, sgn, xin)
 	case "enc", "hash":
 		if len(a) != 11 {
 			return "bad-op"
@@ -600,6 +619,7 @@ func c13Gen(g *gen) {
 				}
 			}
 		}
+		c13GenLattice(g, key, gr)
 		for i := 0; i < g.budget(1, 12); i++ {
 			msg := g.rng.bytes([]int{0, 3, 32, 100}[(i+len(key))%4])
 			dst := g.rng.bytes([]int{16, 1, 255, 0, 43}[(i+len(key))%5])
@@ -621,6 +641,7 @@ func c13Gen(g *gen) {
 		for i := 0; i < g.budget(12, 300); i++ {
 			us = append(us, g.rng.bigBelow(gr.p))
 		}
+		us = append(us, c13LatticeBoth(gr.p, g.rng)...) // limb-boundary lattice, regular and Montgomery shaped
 		for _, u := range us {
 			g.emit("C13 svdw %s %s", curve, hexBig(u))
 		}
